@@ -53,7 +53,7 @@ type Case struct {
 // every exported RPC method of the NETCONF driver that takes no per-operation timeout itself
 var ncKinds = []string{"lock", "unlock", "commit", "discard", "copy-config", "delete-config", "edit-config", "validate", "get-config", "rpc", "subscribe"}
 
-var ops = []string{"getprompt", "cmd", "cmds", "interactive", "acquire", "acquire-auth", "acquire-down", "ncmd", "nconfigs", "ninteractive", "nc-open", "nc-get", "nc-lock", "login-telnet", "login-ssh", "open-hook"}
+var ops = []string{"getprompt", "cmd", "cmds", "interactive", "acquire", "acquire-auth", "acquire-down", "ncmd", "nconfigs", "ninteractive", "nc-open", "nc-get", "nc-lock", "login-telnet", "login-ssh", "open-hook", "nopen-hook"}
 
 const (
 	connTimeout = time.Second
@@ -109,12 +109,12 @@ type scenario struct {
 	wantResult string
 	wantNext   string
 	closeF     func()
-	single     bool        // single-step: lower bound applies
-	privErr    bool        // a stall may surface as a privilege error
-	perOp      bool        // honours a per-operation timeout
+	single     bool // single-step: lower bound applies
+	privErr    bool // a stall may surface as a privilege error
+	perOp      bool // honours a per-operation timeout
 	// finalLine (multi-step operations whose last step takes the per-operation timeout): once the
 	// device has received this line the stall lies in that last step
-	finalLine string
+	finalLine  string
 	trailing   int         // bytes at the end of the exchange that are not needed for success
 	inputClean func() bool // true once the command's return reached the device
 	lines      func() []string
@@ -216,6 +216,35 @@ func build(c *Case) (*scenario, error) {
 
 		s.open = true
 		s.single = false
+		s.trailing = 1
+		s.prepare = func() error { return nil }
+		s.ch = d.Channel
+		s.closeF = func() { _ = d.Close() }
+		s.lines = dev.LineStrings
+		s.op = func([]util.Option) (string, error) { return "", d.Open() }
+	case "nopen-hook":
+		// Open of a network driver whose (network) on-open function sends a command
+		dev, _ := cliDevice(c)
+		s.pipe = sim.NewPipe(dev)
+		s.pipe.Plan = c.Plan
+
+		levels := map[string]*network.PrivilegeLevel{
+			"exec": {Name: "exec", Pattern: `(?im)^r7>\s*$`},
+		}
+
+		d, err := network.NewDriver("sim", append(common(s.pipe), options.WithPrivilegeLevels(levels), options.WithDefaultDesiredPriv("exec"),
+			options.WithNetworkOnOpen(func(nd *network.Driver) error {
+				_, e := nd.SendCommand(c.Cmd)
+
+				return e
+			}))...)
+		if err != nil {
+			return nil, err
+		}
+
+		s.open = true
+		s.single = false
+		s.privErr = true // the command of the on-open function checks the level first
 		s.trailing = 1
 		s.prepare = func() error { return nil }
 		s.ch = d.Channel
